@@ -16,7 +16,7 @@ def sh(cmd, env=None, cwd=None, timeout=1800):
 
 def one(sdir):
     ident = mp.current_process()._identity
-    wt = '/tmp/wt/recheck-%d' % (ident[0] if ident else 0)
+    wt = '/tmp/wt/recheck-%d-%d' % (os.getppid(), ident[0] if ident else 0)     # several runs may be going on at once
     if not os.path.isdir(wt):
         sh('git -C /repo worktree add --detach %s HEAD -q' % wt)
     sh('git checkout -q -- . && git clean -fdq', cwd=wt)
@@ -43,10 +43,8 @@ def main():
     for r in bad:
         print(r[1], os.path.basename(r[0]), r[2])
     print('seeds %d caught %d not-caught %d' % (len(res), len(res) - len(bad), len(bad)))
-    for k in range(0, 40):
-        wt = '/tmp/wt/recheck-%d' % k
-        if os.path.isdir(wt):
-            sh('git -C /repo worktree remove --force %s' % wt)
+    for wt in glob.glob('/tmp/wt/recheck-%d-*' % os.getpid()):
+        sh('git -C /repo worktree remove --force %s' % wt)
 
 
 if __name__ == '__main__':
